@@ -63,6 +63,7 @@ class MemConsumer(AbstractMessageBusConsumerPlugin):
             ev.timestamp = ts
             hook = self.world.get("deliverhook")
             if hook:
+                self.world["_mode"] = getattr(self, "mode", None)
                 hook(off)
             yield ev
             self.cur = off + 1
@@ -186,3 +187,7 @@ def run_segment(cl, iters, before, after):
     cl._GenericClient__isStopped = False
     setup(0)
     cl.mainLoop()
+    if state["i"] < len(iters) and getattr(cl, "_stopped_by_request", False):
+        # the loop was left by a stop request in the middle of an iteration (graceful stop):
+        # its checkpoint is written, observe it
+        after(state["i"], iters[state["i"]])
